@@ -393,6 +393,19 @@ func (r refRule) matches(host string, addrs []addr) bool {
 	return false
 }
 
+// mappedNotation: an IP/CIDR rule written as ::ffff:a.b.c.d[/n].
+func (r refRule) mappedNotation() bool {
+	if r.kind != ruleNet || r.base.fam4 {
+		return false
+	}
+	_, ok := r.base.v4part()
+	return ok
+}
+
+// reasonDenyMapped: the request is forbidden by a deny rule, and every deny
+// rule that matches is written in IPv4-mapped notation (reported under one key).
+const reasonDenyMapped = "deny-rule-in-mapped-notation"
+
 func anyMatch(rules []refRule, host string, addrs []addr) bool {
 	for _, r := range rules {
 		if r.matches(host, addrs) {
@@ -430,7 +443,19 @@ func (p *refPolicy) decide(scheme, host string, addrs []addr) string {
 			}
 		}
 	}
-	if anyMatch(p.deny, host, addrs) {
+	denied, onlyMappedNotation := false, true
+	for _, r := range p.deny {
+		if r.matches(host, addrs) {
+			denied = true
+			if !r.mappedNotation() {
+				onlyMappedNotation = false
+			}
+		}
+	}
+	if denied {
+		if onlyMappedNotation {
+			return reasonDenyMapped
+		}
 		return "deny"
 	}
 	if len(p.allow) > 0 && !anyMatch(p.allow, host, addrs) {
